@@ -3,6 +3,7 @@ package binary
 import (
 	"github.com/cloudwego/dynamicgo/proto"
 	"github.com/cloudwego/dynamicgo/proto/protowire"
+	"io"
 )
 
 func (p *BinaryProtocol) SkipFixed32Type() (int, error) {
@@ -19,6 +20,9 @@ func (p *BinaryProtocol) SkipBytesType() (int, error) {
 	v, n := protowire.ConsumeVarint((p.Buf)[p.Read:])
 	if n < 0 {
 		return n, errDecodeField
+	}
+	if v > uint64(len(p.Buf)-p.Read-n) {
+		return n, io.ErrUnexpectedEOF
 	}
 	all := int(v) + n
 	_, err := p.next(all)
